@@ -727,6 +727,28 @@ def c01_lock(ctx, only_iterator=False):
         ctx.check(ok, node, "%s runs with the dispatch lock held: %s" % (what, why),
                   "%s can run WITHOUT the dispatch lock (%s): callback threads and the caller thread race on it" % (what, why))
     ctx.floor(n, 4 if only_iterator else 14, "guarded operations on dispatch state")
+    if only_iterator:
+        return
+    # the lock is re-acquired by the thread that holds it (callback -> _register_outcome, iterator-error path):
+    # it has to be re-entrant
+    nested = []
+    for fn in _par_methods(ctx):
+        takes = [w for w in nodes_of_type(fn, ast.With) if any(dotted(i.context_expr) in LOCK_NAMES for i in w.items)]
+        if not takes:
+            continue
+        for caller, call in ctx.res.callers(fn, SCOPE):
+            ok, _ = held_at(ctx.res, call, LOCK_NAMES, LOCK, entry, SCOPE)
+            if ok:
+                nested.append((caller, fn))
+    init = F(ctx, "Parallel.__init__")
+    ctor = [a for a in assigns_to(init, "self._lock")]
+    ctx.need(ctor, "Parallel.__init__ no longer creates self._lock")
+    kind = call_name(ctor[0].value) if isinstance(ctor[0].value, ast.Call) else None
+    if nested:
+        ctx.check(kind in ("threading.RLock", "RLock"), ctor[0], "the dispatch lock is re-entrant (it is re-acquired while held, e.g. %s -> %s)" % (nested[0][0]._qualname, nested[0][1]._qualname),
+                  "the dispatch lock is a %s but %s calls %s while holding it, which takes it again: the callback thread deadlocks on itself" % (kind, nested[0][0]._qualname, nested[0][1]._qualname))
+    else:
+        ctx.check(kind in ("threading.RLock", "RLock", "threading.Lock", "Lock"), ctor[0], "the dispatch lock is a threading lock")
 
 
 def c01_reg_before_submit(ctx):
